@@ -17,7 +17,11 @@ AUTHORS_WIDE = {1: "山田太郎左衛門尉景元", 2: "Kangwook Lee (이강욱
 TIMES = {1: "2021-08-22 18:20:19 -0700", 2: "2020-01-02 03:04:05 +0100", 3: "1999-12-31 23:59:59 -0330",
          4: "2022-02-28 00:00:01 +1345"}
 CODES = ["    let x = 1;", "", "\tfn main() { 世界 }", "}", " // note: (not a blame) 12)", "x" * 30,
-         "// see (Bob 2020-01-01 00:00:00 +0000 12) for details", "f(a) (X 1999-12-31 23:59:59 -0100 7)"]
+         "// see (Bob 2020-01-01 00:00:00 +0000 12) for details", "f(a) (X 1999-12-31 23:59:59 -0100 7)",
+         # code that ends in (or consists of) control characters: a trailing tab, tabs only, a form feed (page break)
+         "value = 1;\t", "\t\t", "\x0c", "end of page\x0c"]
+# near-identical shades: distinct in 24 bits, one and the same entry of the 256-colour palette
+SHADES = ["#1d2021", "#202324", "#232627", "#262a2b"]
 FORMATS = {
     "default": [],
     "commit-first": ["--blame-format", "{commit:<9} {author:<12.11} {timestamp:<25}"],
@@ -73,6 +77,10 @@ def run(tier):
         cases.append({"ks": ks, "P": r2.choice([2, 3, 4]), "cs": None})
     log(f"[{PID}] design level: {mc.distinct} distinct states, laws hold={not mc.violated}; {len(cases)} key sequences to replay")
     jobs = [(c, list(FORMATS)[i % len(FORMATS)], i % 5 == 0) for i, c in enumerate(cases)]
+    # the same laws with a palette of near-identical shades and 24-bit colour switched off: lines of different commits must
+    # still differ in colour
+    for i, c in enumerate(rnd.sample([c for c in cases if not c.get("gs")], 80 if tier == "quick" else 800)):
+        jobs.append((dict(c, pal=SHADES, tc="never"), list(FORMATS)[i % len(FORMATS)], False))
     intern = gitskin.Interner()
     pal_index = {(0, 0, i + 1): i + 1 for i in range(4)}
 
@@ -82,8 +90,10 @@ def run(tier):
     def one(job):
         c, fmt, renamed = job
         data, meta = make_input(c["ks"], renamed, authors_of(job), c.get("gs"))
-        args = ["--no-gitconfig", "--syntax-theme", "none", "--blame-palette", " ".join(PALETTE[:c["P"]]),
+        args = ["--no-gitconfig", "--syntax-theme", "none", "--blame-palette", " ".join(c.get("pal", PALETTE)[:c["P"]]),
                 "--blame-timestamp-output-format", "%Y-%m-%d %H:%M:%S %z", "--width", "200"] + FORMATS[fmt]
+        if c.get("tc"):
+            args += ["--true-color", c["tc"]]
         return data, meta, core.run_delta(args, data)
 
     res = core.pmap(one, jobs)
@@ -102,7 +112,12 @@ def run(tier):
                 return hits[0] if len(hits) == 1 else (0 if not hits else 99)
             commit = which(COMMITS)
             shows_all = fmt != "commit-only"
-            rows.append({"c": pal_index.get(tuple(bg), 0), "code": intern(code.encode()), "num": int(num) if num else 0,
+            pix = pal_index
+            if c.get("pal"):
+                # position in the palette where the colour is exactly a palette entry, otherwise an identity of the colour
+                pix = {tuple(int(h[j:j + 2], 16) for j in (1, 3, 5)): n_ + 1 for n_, h in enumerate(c["pal"])}
+            ci = pix.get(tuple(bg), 0) or (100 + intern(repr(tuple(bg)).encode()) if bg else 0)
+            rows.append({"c": ci if c.get("pal") else pal_index.get(tuple(bg), 0), "code": intern(code.encode()), "num": int(num) if num else 0,
                          "commit": commit, "author": which(authors_of((c, fmt, renamed))) if shows_all else commit,
                          "time": which(TIMES) if shows_all else commit})
         events.append({"run": i, "NK": 4, "P": c["P"], "ks": c["ks"], "gs": [bool(x) for x in (c.get("gs") or [False] * len(c["ks"]))],
